@@ -15,6 +15,9 @@
     §4  ECDSA on the pinned tree (finding F4)
     §5  non-vacuity examples
     §6  completion from a store-level description of the token (`HealthyWorld`, `C01_completes`)
+    §7  completion for EC keys (`C01_completes_ecdsa`) and for schemas of both families
+        (`C01_completes_any`, `C01_slot_completes_iff`); finding F4 as a theorem
+        (`C01_ecdsa_published_key_has_prefix`)
 -/
 import Kskm.Signer
 import KskmProofs.Lemmas.TokM
@@ -28,6 +31,8 @@ import KskmProofs.C15
 import KskmProofs.C02
 import KskmProofs.Lemmas.SignerComplete
 import KskmProofs.Lemmas.SignerCompleteExample
+import KskmProofs.Lemmas.C01Any
+import KskmProofs.Lemmas.C01AnyExample
 namespace Kskm.C01
 
 /-- uniqueness by public key: adding never creates two entries with the same public key text -/
@@ -213,7 +218,8 @@ Full statement (DESIGN §4/C01 `C01_completes`):
     matching the configuration, a healthy signature scheme, per bundle equal ZSK / signing-key
     algorithm sets and times that pack into 32 bits,  `signBundles` returns `ok`.
 
-It is proved for RSA keys in §6 (`C01_completes`, from the store-level hypothesis `HealthyWorld`).
+It is proved for RSA keys in §6 (`C01_completes`, from the store-level hypothesis `HealthyWorld`) and
+for EC keys and schemas with keys of both families in §7 (`C01_completes_ecdsa`, `C01_completes_any`).
 This section proves, for EVERY token, the part after the fetches.
 
 Proved here: `C01_completes_partial`, which starts AFTER the three `_fetch_keys` calls of a slot — their
@@ -532,7 +538,8 @@ Hypotheses, all explicit:
   - `signs`: the scheme is healthy — the software verifier accepts what the token answers, under the
     key text derived from the private object, over the octets that were formatted.
 
-Missing from the full statement of DESIGN §4/C01: EC keys (finding F4 concerns them anyway) and
+Missing from the full statement of DESIGN §4/C01 IN THIS SECTION (EC keys, and EC private objects without a
+readable point, are covered in §7): EC keys (finding F4 concerns them anyway) and
 tokens whose private objects lack readable public attributes (the second lookup of
 `load_pkcs11_key`; `OnToken.rsa` asks for modulus and exponent on both objects); `create_skr`'s
 policy assembly after `sign_bundles` (`kskSignaturePolicy`, which needs every published key to be RSA)
@@ -634,5 +641,760 @@ example : (signBundles ext mods cfg req (signingToken store (fun _ _ => true) sg
     (·.map fun b => (b.keys.length, b.signatures.length)) = .ok [(4, 1), (2, 1)] := by decide +kernel
 
 end WorldExample
+
+/-! ## §7 Completion for EC keys and for schemas of both key families; finding F4 as a theorem
+
+§6 derives completion for RSA keys.  Here the store-level description covers EC key pairs too
+(Lemmas/C01Ec.lean): P-256 / P-384, CKA_EC_POINT presented wrapped in a DER OCTET STRING or bare (`EcForm`:
+both rules of the `ecUnwrapChecksLength` switch), private object with or without a readable point (the second
+lookup of `load_pkcs11_key`), algorithm 13 ↔ P-256, 14 ↔ P-384 (`EcConfigured`).  `AnyLoc` says for each
+label whether it is an RSA or an EC key pair; `AnyHealthyAction` is `HealthyAction` of §6 over `AnyLoc`
+— same hypotheses, in the same words — with the agreement of the algorithm sets (`AlgsAgree`) stated apart, so
+that BOTH outcomes of the agreement check are theorems (`C01_slot_completes_iff`).
+
+The hypothesis on the signature scheme is the one of §6 (`signs`): the verifier parameter accepts what the
+token answers, under the key text derived from the token, over the octets that were formatted.  For EC keys
+that key text is the base64 of `04 ‖ X ‖ Y` (finding F4: `C01_ecdsa_published_key_has_prefix`), so the
+verifier of the hypothesis is the TOOL's (which strips the octet), not an RFC 6605 validator. -/
+
+/-- what holds of one signature of a healthy slot: made by the key configured under a name listed under
+    `sign`, with that key's algorithm and label, `SigSpec` under the key text derived from the token -/
+def SignedAs (ext : Externals) (cfg : SignerConfig) (loc : String → AnyLoc) (act : SchemaAction) (rb : Bundle)
+    (σ : Signature) : Prop :=
+  ∃ name ∈ act.sign, ∃ k, cfg.kskKeys.lookup name = some k ∧ σ.algorithm = k.algorithm ∧
+    σ.keyIdentifier = k.label ∧ ∃ dnsKey raw sigBytes,
+      SigSpec ext rb.inception rb.expiration cfg.kskPolicy rb.keys
+        (gck cfg.kskPolicy.ttl (fun l => (loc l).raw) (anyP11 loc) k false) σ dnsKey raw sigBytes
+        (Base64.encode (loc k.label).raw)
+
+/-- **Every signature of a healthy slot is `SignedAs`**: the software verifier accepted it over exactly the
+    published set under the key text DERIVED FROM THE TOKEN for the configured key. -/
+theorem C01_slot_signed_as (ext : Externals) (st : Store) (ok : String → Nat → Bool)
+    (sg : String → Nat → Nat → Nat → Bytes → Bytes) (mods : List P11Module) (cfg : SignerConfig)
+    (loc : String → AnyLoc) (slot : Nat) (b : Bundle) (act : SchemaAction)
+    (hact : cfg.actions.lookup slot = some act) (ha : AnyHealthyAction ext st sg mods cfg loc b act)
+    (rb : Bundle) (s s' : TokState)
+    (h : signBundle ext mods cfg slot b (signingToken st ok sg) s = (.ok rb, s')) :
+    ∀ σ ∈ rb.signatures, SignedAs ext cfg loc act rb σ := by
+  intro σ hσ
+  obtain ⟨act', pub, rev, revoked, signing, s1, s2, s3, hact', _, _, _, hsign, _, hsigs, hfin⟩ := signBundle_ok h
+  rw [hact] at hact'
+  cases hact'
+  obtain ⟨_, hrb, _⟩ := finishBundle_ok hfin
+  obtain ⟨new, e, h1, _, _, _⟩ := signAll_ok hsigs
+  simp only [List.nil_append] at e
+  rw [e] at hσ
+  obtain ⟨sk, hsk, sa, sb, hrun⟩ := h1 σ hσ
+  have hcore := anyHealthyAction_core ha
+  have hf := gfetched_of_run ext st ok sg mods cfg _ _ b act hcore false act.sign
+    (fun n hn => by simp [SchemaAction.names, hn]) s2 s3 signing hsign
+  obtain ⟨name, hname, k, hk, rfl⟩ := hf.mem.1 sk hsk
+  obtain ⟨dnsKey, raw, sigBytes, pk, hspec, _⟩ := signKeys_spec ext b rb.keys _ cfg.kskPolicy _ sa sb σ hrun
+  obtain ⟨k', hk'⟩ := hcore.names name (by simp [SchemaAction.names, hname])
+  have hkk : k' = k := by
+    have := hk'.configured
+    rw [hk] at this
+    exact (Option.some.inj this).symm
+  subst hkk
+  have hpk : pk = Base64.encode (loc k'.label).raw := by
+    have h1 : (anyP11 loc k' false).publicKey = some pk := hspec.pubkey
+    rw [hk'.ready.text] at h1
+    exact (Option.some.inj h1).symm
+  subst hpk
+  have hi : rb.inception = b.inception := by rw [hrb]
+  have he : rb.expiration = b.expiration := by rw [hrb]
+  rw [SignedAs, hi, he]
+  exact ⟨name, hname, k', hk, hspec.algorithm, hspec.keyIdentifier, dnsKey, raw, sigBytes, hspec⟩
+
+/-- **Completion, one slot, keys of either family.** -/
+theorem C01_completes_any_slot (ext : Externals) (st : Store) (ok : String → Nat → Bool)
+    (sg : String → Nat → Nat → Nat → Bytes → Bytes) (mods : List P11Module) (cfg : SignerConfig)
+    (loc : String → AnyLoc) (slot : Nat) (b : Bundle) (act : SchemaAction) (hb : HealthyBase ext cfg)
+    (hact : cfg.actions.lookup slot = some act) (ha : AnyHealthyAction ext st sg mods cfg loc b act)
+    (hagree : AlgsAgree cfg b act) (s : TokState) :
+    ∃ rb s', signBundle ext mods cfg slot b (signingToken st ok sg) s = (.ok rb, s') := by
+  obtain ⟨keys, sigs, s4, hrun, hsa, hcv⟩ :=
+    gslot_run ext st ok sg mods cfg _ _ slot b act hb hact (anyHealthyAction_core ha) s
+  have hsame : sameSet (b.keys.map (·.algorithm)) (sigs.map (·.algorithm)) = true := by
+    rw [sameSet_iff]
+    intro a
+    rw [hagree a, hsa a]
+  have hsne : act.sign ≠ [] := by
+    intro he
+    cases hbk : b.keys with
+    | nil => exact ha.zsks hbk
+    | cons z r =>
+      obtain ⟨n, hn, _⟩ := (hagree z.algorithm).mp (by simp [hbk])
+      simp [he] at hn
+  refine ⟨⟨b.id, b.inception, b.expiration, keys, sigs, none⟩, s4, ?_⟩
+  rw [hrun]
+  simp only [finishBundle, hsame, Bool.not_true, Bool.false_eq_true, ↓reduceIte, hcv hsne]
+
+/-- **Refusal, one slot.** An action that is healthy in every other respect but whose ZSK algorithm set is
+    not the algorithm set of the keys under `sign` — e.g. a schema that signs with an RSA and an EC key while
+    the request carries only RSA ZSKs — is refused by the algorithm-agreement check, AFTER the signatures
+    were made: `sign_bundles` raises `CreateSignatureError`, no response bundle. -/
+theorem C01_refused_without_agreement (ext : Externals) (st : Store) (ok : String → Nat → Bool)
+    (sg : String → Nat → Nat → Nat → Bytes → Bytes) (mods : List P11Module) (cfg : SignerConfig)
+    (loc : String → AnyLoc) (slot : Nat) (b : Bundle) (act : SchemaAction) (hb : HealthyBase ext cfg)
+    (hact : cfg.actions.lookup slot = some act) (ha : AnyHealthyAction ext st sg mods cfg loc b act)
+    (hnot : ¬ AlgsAgree cfg b act) (s : TokState) :
+    ∃ s', signBundle ext mods cfg slot b (signingToken st ok sg) s = (.error (.error .createSignature), s') := by
+  obtain ⟨keys, sigs, s4, hrun, hsa, _⟩ :=
+    gslot_run ext st ok sg mods cfg _ _ slot b act hb hact (anyHealthyAction_core ha) s
+  have hsame : sameSet (b.keys.map (·.algorithm)) (sigs.map (·.algorithm)) = false := by
+    rw [Bool.eq_false_iff]
+    intro ht
+    rw [sameSet_iff] at ht
+    exact hnot (fun a => by rw [ht a, hsa a])
+  refine ⟨s4, ?_⟩
+  rw [hrun]
+  simp only [finishBundle, hsame, Bool.not_false, ↓reduceIte]
+  rfl
+
+/-- **Which schemas complete (item "mixed RSA + EC").** For an action healthy in every other respect,
+    over keys of either family: `sign_bundles` returns a bundle for the slot EXACTLY when the algorithm set
+    of the request's ZSKs equals the algorithm set of the keys configured under `sign`.  So a schema
+    signing with an RSA key and an EC key completes iff the ZSK set has keys of both algorithms (and of no
+    third one); otherwise the outcome is `CreateSignatureError` (`C01_refused_without_agreement`). -/
+theorem C01_slot_completes_iff (ext : Externals) (st : Store) (ok : String → Nat → Bool)
+    (sg : String → Nat → Nat → Nat → Bytes → Bytes) (mods : List P11Module) (cfg : SignerConfig)
+    (loc : String → AnyLoc) (slot : Nat) (b : Bundle) (act : SchemaAction) (hb : HealthyBase ext cfg)
+    (hact : cfg.actions.lookup slot = some act) (ha : AnyHealthyAction ext st sg mods cfg loc b act)
+    (s : TokState) :
+    (∃ rb s', signBundle ext mods cfg slot b (signingToken st ok sg) s = (.ok rb, s')) ↔
+      AlgsAgree cfg b act := by
+  constructor
+  · rintro ⟨rb, s', h⟩
+    apply Classical.byContradiction
+    intro hnot
+    obtain ⟨s'', h'⟩ := C01_refused_without_agreement ext st ok sg mods cfg loc slot b act hb hact ha hnot s
+    rw [h] at h'
+    cases h'
+  · intro hagree
+    exact C01_completes_any_slot ext st ok sg mods cfg loc slot b act hb hact ha hagree s
+
+/-- the mixed case in the property's words: a healthy action that signs with a key of algorithm `a₁` and
+    a key of algorithm `a₂` completes only if the request bundle has a ZSK of each -/
+theorem C01_mixed_needs_both (ext : Externals) (st : Store) (ok : String → Nat → Bool)
+    (sg : String → Nat → Nat → Nat → Bytes → Bytes) (mods : List P11Module) (cfg : SignerConfig)
+    (loc : String → AnyLoc) (slot : Nat) (b : Bundle) (act : SchemaAction) (hb : HealthyBase ext cfg)
+    (hact : cfg.actions.lookup slot = some act) (ha : AnyHealthyAction ext st sg mods cfg loc b act)
+    (s : TokState) (n₁ n₂ : String) (k₁ k₂ : KskKey) (h₁ : n₁ ∈ act.sign) (h₂ : n₂ ∈ act.sign)
+    (l₁ : cfg.kskKeys.lookup n₁ = some k₁) (l₂ : cfg.kskKeys.lookup n₂ = some k₂)
+    (_hr : isAlgorithmRsa k₁.algorithm = true) (_he : isAlgorithmEcdsa k₂.algorithm = true)
+    (h : ∃ rb s', signBundle ext mods cfg slot b (signingToken st ok sg) s = (.ok rb, s')) :
+    (∃ z ∈ b.keys, z.algorithm = k₁.algorithm) ∧ (∃ z ∈ b.keys, z.algorithm = k₂.algorithm) := by
+  have hagree := (C01_slot_completes_iff ext st ok sg mods cfg loc slot b act hb hact ha s).mp h
+  constructor
+  · have := (hagree k₁.algorithm).mpr ⟨n₁, h₁, k₁, l₁, rfl⟩
+    simpa using this
+  · have := (hagree k₂.algorithm).mpr ⟨n₂, h₂, k₂, l₂, rfl⟩
+    simpa using this
+
+/-- a request all of whose bundles meet a healthy action of the schema (keys of either family) whose
+    algorithm sets agree -/
+structure AnyHealthyWorld (ext : Externals) (st : Store) (sg : String → Nat → Nat → Nat → Bytes → Bytes)
+    (mods : List P11Module) (cfg : SignerConfig) (loc : String → AnyLoc) (req : Request) : Prop where
+  base : HealthyBase ext cfg
+  slots : ∀ i b, req.bundles[i]? = some b →
+    ∃ act, cfg.actions.lookup (i + 1) = some act ∧ AnyHealthyAction ext st sg mods cfg loc b act ∧
+      AlgsAgree cfg b act
+
+/-- **C01_completes for keys of either family (RSA, ECDSA P-256 / P-384, mixed).** In a healthy world
+    `sign_bundles` returns a response for the whole request, one response bundle per request bundle, and
+    every signature in it is `SignedAs`: accepted by the verifier parameter over exactly the published
+    set, under the key text derived from the token for the key configured under a name the slot's action
+    lists under `sign`. -/
+theorem C01_completes_any (ext : Externals) (st : Store) (ok : String → Nat → Bool)
+    (sg : String → Nat → Nat → Nat → Bytes → Bytes) (mods : List P11Module) (cfg : SignerConfig)
+    (loc : String → AnyLoc) (req : Request) (hw : AnyHealthyWorld ext st sg mods cfg loc req) (s : TokState) :
+    ∃ rbs s', signBundles ext mods cfg req (signingToken st ok sg) s = (.ok rbs, s') ∧
+      rbs.length = req.bundles.length ∧
+      ∀ i rb, rbs[i]? = some rb → ∃ act, cfg.actions.lookup (i + 1) = some act ∧
+        ∀ σ ∈ rb.signatures, SignedAs ext cfg loc act rb σ := by
+  have key : ∀ (bs : List Bundle) (n : Nat) (s : TokState),
+      (∀ i b, bs[i]? = some b → ∃ act, cfg.actions.lookup (n + i) = some act ∧
+        AnyHealthyAction ext st sg mods cfg loc b act ∧ AlgsAgree cfg b act) →
+      ∃ rbs s', signBundlesFrom ext mods cfg n bs (signingToken st ok sg) s = (.ok rbs, s') := by
+    intro bs
+    induction bs with
+    | nil => intro n s _; exact ⟨[], s, by simp [signBundlesFrom_nil]⟩
+    | cons b rest ih =>
+      intro n s h
+      obtain ⟨act, hact, ha, hag⟩ := h 0 b rfl
+      obtain ⟨rb, s1, hrb⟩ := C01_completes_any_slot ext st ok sg mods cfg loc n b act hw.base hact ha hag s
+      obtain ⟨more, s2, hmore⟩ := ih (n + 1) s1 (by
+        intro i b' hb'
+        have := h (i + 1) b' (by simpa using hb')
+        rwa [show n + (i + 1) = n + 1 + i by omega] at this)
+      refine ⟨rb :: more, s2, ?_⟩
+      rw [signBundlesFrom_cons]
+      simp only [TokM.bind_eq, hrb, hmore, TokM.pure_run]
+  obtain ⟨rbs, s', h⟩ := key req.bundles 1 s (by
+    intro i b hb
+    have := hw.slots i b hb
+    rwa [Nat.add_comm] at this)
+  obtain ⟨hlen, hpos⟩ := signBundlesFrom_ok h
+  refine ⟨rbs, s', h, hlen, ?_⟩
+  intro i rb hi
+  have hlt : i < req.bundles.length := by
+    rw [← hlen]
+    exact (List.getElem?_eq_some_iff.mp hi).1
+  obtain ⟨rb', sa, sb, h1, h2⟩ := hpos i req.bundles[i] (List.getElem?_eq_getElem hlt)
+  rw [hi] at h1
+  cases h1
+  rw [Nat.add_comm] at h2
+  obtain ⟨act, hact, ha, _⟩ := hw.slots i req.bundles[i] (List.getElem?_eq_getElem hlt)
+  exact ⟨act, hact, C01_slot_signed_as ext st ok sg mods cfg loc (i + 1) _ act hact ha rb sa sb h2⟩
+
+/-- **C01_completes_ecdsa.** In a healthy world all of whose keys are EC key pairs (`eloc`: P-256 / P-384,
+    point wrapped or bare, private object with or without a readable point), with a schema and a
+    well-formed request: `sign_bundles` returns `ok` with one response bundle per request bundle, and for
+    every signature `σ` of every response bundle there is a name under `sign` of the slot's action,
+    configured as a key `k` of algorithm 13 or 14, such that
+    * `σ` has that algorithm and `SigSpec` holds — in particular the verifier parameter accepted the
+      signature octets over `make_raw_rrsig σ rb.keys` under the key text derived from the token, which is
+      the base64 of `04 ‖ X ‖ Y`;
+    * `_format_data_for_signing` handed the token, with hashing on the token, those octets untouched with
+      `CKM_ECDSA_SHA256` (13) / `CKM_ECDSA_SHA384` (14), and with hashing on the host their SHA-256 / SHA-384
+      digest with `CKM_ECDSA` (the rows of C15 `mechanism_table`). -/
+theorem C01_completes_ecdsa (ext : Externals) (st : Store) (ok : String → Nat → Bool)
+    (sg : String → Nat → Nat → Nat → Bytes → Bytes) (mods : List P11Module) (cfg : SignerConfig)
+    (eloc : String → EcLoc) (req : Request)
+    (hw : AnyHealthyWorld ext st sg mods cfg (fun l => .ec (eloc l)) req) (s : TokState) :
+    ∃ rbs s', signBundles ext mods cfg req (signingToken st ok sg) s = (.ok rbs, s') ∧
+      rbs.length = req.bundles.length ∧
+      ∀ i rb, rbs[i]? = some rb → ∀ σ ∈ rb.signatures, ∃ act name k sk dnsKey raw sigBytes d,
+        cfg.actions.lookup (i + 1) = some act ∧ name ∈ act.sign ∧ cfg.kskKeys.lookup name = some k ∧
+        (k.algorithm = 13 ∨ k.algorithm = 14) ∧ σ.algorithm = k.algorithm ∧
+        sk.p11 = ecP11 k.label k.hashUsingHsm (eloc k.label) false ∧
+        SigSpec ext rb.inception rb.expiration cfg.kskPolicy rb.keys sk σ dnsKey raw sigBytes
+          (Base64.encode (4 :: (eloc k.label).xy)) ∧
+        ext.verify k.algorithm (Base64.encode (4 :: (eloc k.label).xy)) raw sigBytes = .valid ∧
+        formatDataForSigning ext.hash sk.p11 raw k.algorithm = .ok d ∧
+        (k.hashUsingHsm = some true → d.data = raw ∧
+          d.mechanism = if k.algorithm = 13 then ckmEcdsaSha256 else ckmEcdsaSha384) ∧
+        (k.hashUsingHsm ≠ some true → d.mechanism = ckmEcdsa ∧
+          ext.hash (if k.algorithm = 13 then .sha256 else .sha384) raw = some d.data) := by
+  obtain ⟨rbs, s', h, hlen, hsig⟩ := C01_completes_any ext st ok sg mods cfg _ req hw s
+  refine ⟨rbs, s', h, hlen, ?_⟩
+  intro i rb hi σ hσ
+  obtain ⟨act, hact, hall⟩ := hsig i rb hi
+  obtain ⟨name, hname, k, hk, halg, _, dnsKey, raw, sigBytes, hspec⟩ := hall σ hσ
+  -- the action of that slot is healthy: `k` is an EC key of algorithm 13 / 14
+  have hlt : i < req.bundles.length := by
+    rw [← hlen]
+    exact (List.getElem?_eq_some_iff.mp hi).1
+  obtain ⟨act', hact', ha, _⟩ := hw.slots i req.bundles[i] (List.getElem?_eq_getElem hlt)
+  rw [hact] at hact'
+  cases hact'
+  obtain ⟨k', hk'⟩ := ha.names name (by simp [SchemaAction.names, hname])
+  have hkk : k' = k := by
+    have := hk'.configured
+    rw [hk] at this
+    exact (Option.some.inj this).symm
+  subst hkk
+  have hc : EcConfigured k' (eloc k'.label) := hk'.onToken.2
+  have h1314 : k'.algorithm = 13 ∨ k'.algorithm = 14 := by
+    rcases hc with ⟨h, _⟩ | ⟨h, _⟩
+    · exact Or.inl h
+    · exact Or.inr h
+  obtain ⟨d, hd⟩ := formatDataForSigning_ecdsa ext.hash
+    (ecP11 k'.label k'.hashUsingHsm (eloc k'.label) false) raw k'.algorithm h1314 hw.base.hashes
+  obtain ⟨_, hhost, htoken⟩ := token_input_spec ext.hash _ raw k'.algorithm d hd
+  refine ⟨act, name, k', _, dnsKey, raw, sigBytes, d, hact, hname, hk, h1314, halg, rfl, hspec,
+    hspec.verified, hd, ?_, ?_⟩
+  · intro hh
+    obtain ⟨hdata, hmech⟩ := htoken hh (by rcases h1314 with h | h <;> simp [h])
+    refine ⟨hdata, ?_⟩
+    rcases h1314 with h | h <;> rw [h] at hmech ⊢
+    · have : mechanismFor true 13 = some ckmEcdsaSha256 := by decide
+      rw [this] at hmech
+      simpa using hmech
+    · have : mechanismFor true 14 = some ckmEcdsaSha384 := by decide
+      rw [this] at hmech
+      simpa using hmech
+  · intro hh
+    exact hhost hh h1314
+
+/-- **Finding F4 as a theorem about the model** (`C01_ecdsa_witness` generalised to every healthy EC key).
+    For every EC key pair that is on the token (P-256 or P-384, point wrapped or bare, private object with
+    or without a readable point) under the label of a KSK configured with the curve's algorithm, inside its
+    window: `load_pkcs11_key` (public and private lookup, from any state) returns a key whose token key text
+    AND whose DNSKEY `publicKey` are the base64 of `0x04 ‖ X ‖ Y` — 65 octets for algorithm 13, 97 for
+    algorithm 14 — not RFC 6605 §4's `X ‖ Y` (64 / 96 octets). -/
+theorem C01_ecdsa_published_key_has_prefix (st : Store) (ok : String → Nat → Bool) (mods : List P11Module)
+    (ksk : KskKey) (pol : KskPolicy) (b : Bundle) (L : EcLoc) (hw : C04.InWindow ksk b)
+    (h : EcOnToken st mods ksk.label L) (hc : EcConfigured ksk L) (isPublic : Bool) (s : TokState) :
+    ∃ ck s', loadPkcs11Key mods ksk pol b isPublic (storeToken st ok) s = (.ok (some ck), s') ∧
+      ck.p11.publicKey = some (Base64.encode (4 :: L.xy)) ∧
+      ck.dns.publicKey = Base64.encode (4 :: L.xy) ∧
+      Base64.decode ck.dns.publicKey = some (4 :: L.xy) ∧
+      ((ksk.algorithm = 13 ∧ (4 :: L.xy).length = 65 ∧ L.xy.length = 64) ∨
+       (ksk.algorithm = 14 ∧ (4 :: L.xy).length = 97 ∧ L.xy.length = 96)) ∧
+      ck.dns.publicKey ≠ Base64.encode L.xy := by
+  obtain ⟨s', hl⟩ := loadPkcs11Key_ecOnToken st ok mods ksk pol b L hw h hc isPublic s
+  refine ⟨_, s', hl, rfl, rfl, Base64.decode_encode _, ?_, ?_⟩
+  · rcases hc.size h with ⟨ha, hl⟩ | ⟨ha, hl⟩
+    · exact Or.inl ⟨ha, by simp [hl], hl⟩
+    · exact Or.inr ⟨ha, by simp [hl], hl⟩
+  · intro he
+    have he' : Base64.encode (4 :: L.xy) = Base64.encode L.xy := he
+    have := congrArg List.length (base64_encode_inj he')
+    simp only [List.length_cons] at this
+    omega
+
+/-- … and that text is what the response PUBLISHES: in every bundle a healthy EC slot returns, each name
+    under `publish` or `sign` has a record in `rb.keys` whose key text is the base64 of `04 ‖ X ‖ Y`
+    (65 / 97 octets, first octet 4). -/
+theorem C01_ecdsa_bundle_publishes_prefixed (ext : Externals) (st : Store) (ok : String → Nat → Bool)
+    (sg : String → Nat → Nat → Nat → Bytes → Bytes) (mods : List P11Module) (cfg : SignerConfig)
+    (eloc : String → EcLoc) (slot : Nat) (b : Bundle) (act : SchemaAction)
+    (hact : cfg.actions.lookup slot = some act)
+    (ha : AnyHealthyAction ext st sg mods cfg (fun l => .ec (eloc l)) b act) (rb : Bundle) (s s' : TokState)
+    (h : signBundle ext mods cfg slot b (signingToken st ok sg) s = (.ok rb, s')) :
+    ∀ name, name ∈ act.publish ∨ name ∈ act.sign → ∀ k, cfg.kskKeys.lookup name = some k →
+      ∃ x ∈ rb.keys, x.publicKey = Base64.encode (4 :: (eloc k.label).xy) ∧
+        Base64.decode x.publicKey = some (4 :: (eloc k.label).xy) ∧
+        ((4 :: (eloc k.label).xy).length = 65 ∨ (4 :: (eloc k.label).xy).length = 97) := by
+  intro name hname k hk
+  obtain ⟨act', pub, rev, revoked, signing, s1, s2, s3, hact', hpub, _, _, hsign, hkeys, _, _⟩ := signBundle_ok h
+  rw [hact] at hact'
+  cases hact'
+  have hcore := anyHealthyAction_core ha
+  have hspec := C02.slotFold_spec cfg.kskPolicy.ttl (pub.map (·.dns)) revoked (signing.map (·.dns)) b.keys
+  have hmem : dnsOf k cfg.kskPolicy.ttl (4 :: (eloc k.label).xy) ∈
+      pub.map (·.dns) ++ revoked ++ signing.map (·.dns) ++ b.keys := by
+    rcases hname with hn | hn
+    · have hf := gfetched_of_run ext st ok sg mods cfg _ _ b act hcore true act.publish
+        (fun n hn => by simp [SchemaAction.names, hn]) s s1 pub hpub
+      obtain ⟨k', hk', hm⟩ := hf.mem.2 name hn
+      rw [hk] at hk'
+      cases hk'
+      exact List.mem_append_left _ (List.mem_append_left _ (List.mem_append_left _
+        (List.mem_map.mpr ⟨_, hm, rfl⟩)))
+    · have hf := gfetched_of_run ext st ok sg mods cfg _ _ b act hcore false act.sign
+        (fun n hn => by simp [SchemaAction.names, hn]) s2 s3 signing hsign
+      obtain ⟨k', hk', hm⟩ := hf.mem.2 name hn
+      rw [hk] at hk'
+      cases hk'
+      exact List.mem_append_left _ (List.mem_append_right _ (List.mem_map.mpr ⟨_, hm, rfl⟩))
+  obtain ⟨x, hx, hxpk⟩ := hspec.complete _ hmem
+  have hxpk' : x.publicKey = Base64.encode (4 :: (eloc k.label).xy) := hxpk
+  refine ⟨x, by rw [hkeys]; exact hx, hxpk', by rw [hxpk']; exact Base64.decode_encode _, ?_⟩
+  obtain ⟨k', hk'⟩ := ha.names name (by
+    rcases hname with hn | hn <;> simp [SchemaAction.names, hn])
+  have hkk : k' = k := by
+    have := hk'.configured
+    rw [hk] at this
+    exact (Option.some.inj this).symm
+  subst hkk
+  have hon : EcOnToken st mods k'.label (eloc k'.label) := hk'.onToken.1
+  rcases hon.raw_length with ⟨_, hl⟩ | ⟨_, hl⟩
+  · exact Or.inl hl
+  · exact Or.inr hl
+
+/-! ### §6 is the RSA instance of §7 -/
+
+/-- a `HealthyAction` of §6 (RSA key pairs) is an `AnyHealthyAction` whose algorithm sets agree -/
+theorem healthyAction_any {ext : Externals} {st : Store} {sg : String → Nat → Nat → Nat → Bytes → Bytes}
+    {mods : List P11Module} {cfg : SignerConfig} {loc : String → KeyLoc} {b : Bundle} {act : SchemaAction}
+    (h : HealthyAction ext st sg mods cfg loc b act) :
+    AnyHealthyAction ext st sg mods cfg (fun l => .rsa (loc l)) b act ∧ AlgsAgree cfg b act := by
+  refine ⟨⟨?_, h.labelAlg, h.distinctKeys, h.zsks, h.zskIds, h.zskNotKsk, h.zskRdata, h.expiration,
+    h.inception, h.signs⟩, h.algs⟩
+  intro name hn
+  obtain ⟨ksk, hk⟩ := h.names name hn
+  exact ⟨ksk, hk.configured, hk.window, ⟨hk.onToken, hk.rsa⟩, hk.identity⟩
+
+/-- a `HealthyWorld` of §6 is an `AnyHealthyWorld`: `C01_completes` is the RSA instance of
+    `C01_completes_any`, which adds that every signature is `SignedAs` -/
+theorem healthyWorld_any {ext : Externals} {st : Store} {sg : String → Nat → Nat → Nat → Bytes → Bytes}
+    {mods : List P11Module} {cfg : SignerConfig} {loc : String → KeyLoc} {req : Request}
+    (hw : HealthyWorld ext st sg mods cfg loc req) :
+    AnyHealthyWorld ext st sg mods cfg (fun l => .rsa (loc l)) req where
+  base := hw.base
+  slots := by
+    intro i b hb
+    obtain ⟨act, hact, ha⟩ := hw.slots i b hb
+    exact ⟨act, hact, (healthyAction_any ha).1, (healthyAction_any ha).2⟩
+
+/-! ### `create_skr` with RSA keys completes
+
+The counterpart of `C01_ecdsa_create_skr_not_implemented` below, and the part §6 left open: in a healthy
+RSA world whose ZSKs are keys `to_algorithm_policy()` accepts (RSA keys with a decodable RFC 3110 text),
+`create_skr` returns the response — `_ksk_signature_policy` succeeds on every published key. -/
+
+/-- `to_algorithm_policy()` does not look at the TTL -/
+theorem algorithmPolicyOfKey_ttl (z : Key) (ttl : Int) :
+    algorithmPolicyOfKey { z with ttl := ttl } = algorithmPolicyOfKey z := rfl
+
+theorem C01_create_skr_completes_rsa (ext : Externals) (st : Store) (ok : String → Nat → Bool)
+    (sg : String → Nat → Nat → Nat → Bytes → Bytes) (mods : List P11Module) (cfg : SignerConfig)
+    (loc : String → KeyLoc) (req : Request) (hw : HealthyWorld ext st sg mods cfg loc req)
+    (hz : ∀ b ∈ req.bundles, ∀ z ∈ b.keys, ∃ p, algorithmPolicyOfKey z = .ok p) (s : TokState) :
+    ∃ resp s', createSkr ext mods cfg req (signingToken st ok sg) s = (.ok resp, s') ∧
+      signBundles ext mods cfg req (signingToken st ok sg) s = (.ok resp.bundles, s') ∧
+      resp.bundles.length = req.bundles.length := by
+  have hw' := healthyWorld_any hw
+  obtain ⟨rbs, s', h, hlen, _⟩ := C01_completes_any ext st ok sg mods cfg _ req hw' s
+  have hfrom : signBundlesFrom ext mods cfg 1 req.bundles (signingToken st ok sg) s = (.ok rbs, s') := h
+  obtain ⟨_, hpos⟩ := signBundlesFrom_ok hfrom
+  have hall : ∀ (i : Nat) (rb : Bundle), rbs[i]? = some rb →
+      ∀ x ∈ rb.keys, ∃ p, algorithmPolicyOfKey x = .ok p := by
+    intro i rb hi
+    have hlt : i < req.bundles.length := by
+      rw [← hlen]
+      exact (List.getElem?_eq_some_iff.mp hi).1
+    obtain ⟨rb', sa, sb, h1, h2⟩ := hpos i req.bundles[i] (List.getElem?_eq_getElem hlt)
+    rw [hi] at h1
+    cases h1
+    obtain ⟨act, hact, ha0⟩ := hw.slots i req.bundles[i] (List.getElem?_eq_getElem hlt)
+    obtain ⟨ha, _⟩ := healthyAction_any ha0
+    obtain ⟨act', pub, rev, revoked, signing, s1, s2, s3, hact', hpub, hrev, hrevoked, hsign, hkeys, _, _⟩ :=
+      signBundle_ok h2
+    rw [Nat.add_comm, hact] at hact'
+    cases hact'
+    have hcore := anyHealthyAction_core ha
+    have epub := gfetched_of_run ext st ok sg mods cfg _ _ _ act hcore true act.publish
+      (fun n hn => by simp [SchemaAction.names, hn]) sa s1 pub hpub
+    have erev := gfetched_of_run ext st ok sg mods cfg _ _ _ act hcore true act.revoke
+      (fun n hn => by simp [SchemaAction.names, hn]) s1 s2 rev hrev
+    have esign := gfetched_of_run ext st ok sg mods cfg _ _ _ act hcore false act.sign
+      (fun n hn => by simp [SchemaAction.names, hn]) s2 s3 signing hsign
+    have hclass := gslot_class ext st sg mods cfg _ _ _ act hcore pub rev signing revoked epub erev esign hrevoked
+    intro x hx
+    rw [hkeys] at hx
+    rcases hclass x hx with ⟨name, hname, k, hk, r⟩ | ⟨z, hzm, rfl, _⟩
+    · obtain ⟨k', hk'⟩ := ha0.names name hname
+      have hkk : k' = k := by
+        have := hk'.configured
+        rw [hk] at this
+        exact (Option.some.inj this).symm
+      subst hkk
+      have hdec := rsaDecode_raw hk'.onToken k'.algorithm hk'.rsa.family
+      have hpk : x.publicKey = Base64.encode (loc k'.label).raw := r.pk
+      unfold algorithmPolicyOfKey
+      rw [r.alg, hk'.rsa.family, hpk]
+      simp only [↓reduceIte, hdec, bind, Except.bind, pure, Except.pure]
+      exact ⟨_, rfl⟩
+    · rw [algorithmPolicyOfKey_ttl]
+      exact hz _ (List.getElem_mem hlt) z hzm
+  obtain ⟨algs, hmap, _⟩ := mapM_ok_of_forall algorithmPolicyOfKey (fun _ => True)
+    ((rbs.map (·.keys)).flatten) (by
+      intro x hx
+      obtain ⟨l, hl, hxl⟩ := List.mem_flatten.mp hx
+      obtain ⟨rb, hrb, rfl⟩ := List.mem_map.mp hl
+      obtain ⟨i, hi⟩ := List.getElem?_of_mem hrb
+      obtain ⟨p, hp⟩ := hall i rb hi x hxl
+      exact ⟨p, hp, trivial⟩)
+  have hpol : ∃ kp, kskSignaturePolicy cfg.kskPolicy rbs = .ok kp := by
+    unfold kskSignaturePolicy
+    rw [hmap]
+    exact ⟨_, rfl⟩
+  obtain ⟨kp, hkp⟩ := hpol
+  refine ⟨{ id := req.id, serial := req.serial, domain := req.domain, timestamp := none,
+            zskPolicy := req.zskPolicy, kskPolicy := kp, bundles := rbs }, s', ?_, h, hlen⟩
+  unfold createSkr
+  rw [bind_run_ok _ _ _ _ _ _ h, bind_run, TokM.lift_run, hkp]
+  rfl
+
+/-! ### `create_skr` with EC keys: signing completes, the response does not
+
+`create_skr` calls `sign_bundles` and then `_ksk_signature_policy`, which asks EVERY published key for
+`to_algorithm_policy()`; `KSKM_PublicKey_ECDSA.to_algorithm_policy` raises
+`RuntimeError("Creating ECDSA AlgorithmPolicy not implemented")`.  So in a healthy EC world all signatures are
+made (and verified, `C01_completes_ecdsa`) — and then `create_skr` raises: no SKR is ever emitted for a
+schema whose bundles publish ECDSA keys.  (C01's "emitted signatures" are therefore those of `sign_bundles`;
+finding F4 is about them.) -/
+
+theorem keyToRdata_decodes {k : Key} {r : Bytes} (h : keyToRdata k = .ok r) :
+    ∃ b, Base64.decode k.publicKey = some b := by
+  unfold keyToRdata at h
+  split at h
+  · simp [err] at h
+  · cases hd : Base64.decode k.publicKey with
+    | none => rw [hd] at h; simp [unsupported] at h
+    | some b => exact ⟨b, rfl⟩
+
+/-- `to_algorithm_policy()` of a (decodable) ECDSA key: RuntimeError, not implemented -/
+theorem algorithmPolicyOfKey_ecdsa (x : Key) (ha : x.algorithm = 13 ∨ x.algorithm = 14)
+    (hd : ∃ b, Base64.decode x.publicKey = some b) :
+    algorithmPolicyOfKey x = .error (.error .runtime) := by
+  obtain ⟨b, hb⟩ := hd
+  unfold algorithmPolicyOfKey
+  rcases ha with h | h <;> simp [h, isAlgorithmRsa, isAlgorithmEcdsa, algRSASHA1, algRSASHA256, algRSASHA512,
+    algECDSAP256, algECDSAP384, hb, err]
+
+theorem mapM_all_error {α β} (f : α → Res β) (e : Fail) :
+    ∀ (l : List α), l ≠ [] → (∀ x ∈ l, f x = .error e) → l.mapM f = .error e
+  | [], h, _ => absurd rfl h
+  | a :: t, _, h => by
+    rw [List.mapM_cons, h a List.mem_cons_self]
+    rfl
+
+/-- every key a healthy EC slot publishes (KSKs of algorithm 13 / 14 with the prefixed point, ZSKs of
+    those algorithms) answers `to_algorithm_policy()` with the RuntimeError, and there is such a key -/
+theorem ec_slot_keys_policy (ext : Externals) (st : Store) (ok : String → Nat → Bool)
+    (sg : String → Nat → Nat → Nat → Bytes → Bytes) (mods : List P11Module) (cfg : SignerConfig)
+    (eloc : String → EcLoc) (slot : Nat) (b : Bundle) (act : SchemaAction)
+    (hact : cfg.actions.lookup slot = some act)
+    (ha : AnyHealthyAction ext st sg mods cfg (fun l => .ec (eloc l)) b act) (hagree : AlgsAgree cfg b act)
+    (rb : Bundle) (s s' : TokState)
+    (h : signBundle ext mods cfg slot b (signingToken st ok sg) s = (.ok rb, s')) :
+    rb.keys ≠ [] ∧ ∀ x ∈ rb.keys, algorithmPolicyOfKey x = .error (.error .runtime) := by
+  obtain ⟨act', pub, rev, revoked, signing, s1, s2, s3, hact', hpub, hrev, hrevoked, hsign, hkeys, _, _⟩ :=
+    signBundle_ok h
+  rw [hact] at hact'
+  cases hact'
+  have hcore := anyHealthyAction_core ha
+  have epub := gfetched_of_run ext st ok sg mods cfg _ _ b act hcore true act.publish
+    (fun n hn => by simp [SchemaAction.names, hn]) s s1 pub hpub
+  have erev := gfetched_of_run ext st ok sg mods cfg _ _ b act hcore true act.revoke
+    (fun n hn => by simp [SchemaAction.names, hn]) s1 s2 rev hrev
+  have esign := gfetched_of_run ext st ok sg mods cfg _ _ b act hcore false act.sign
+    (fun n hn => by simp [SchemaAction.names, hn]) s2 s3 signing hsign
+  have hclass := gslot_class ext st sg mods cfg _ _ b act hcore pub rev signing revoked epub erev esign hrevoked
+  have hspec := C02.slotFold_spec cfg.kskPolicy.ttl (pub.map (·.dns)) revoked (signing.map (·.dns)) b.keys
+  have h1314 : ∀ name ∈ act.names, ∀ k, cfg.kskKeys.lookup name = some k →
+      k.algorithm = 13 ∨ k.algorithm = 14 := by
+    intro name hname k hk
+    obtain ⟨k', hk'⟩ := ha.names name hname
+    have hkk : k' = k := by
+      have := hk'.configured
+      rw [hk] at this
+      exact (Option.some.inj this).symm
+    subst hkk
+    have hc : EcConfigured k' (eloc k'.label) := hk'.onToken.2
+    rcases hc with ⟨h, _⟩ | ⟨h, _⟩
+    · exact Or.inl h
+    · exact Or.inr h
+  constructor
+  · cases hbk : b.keys with
+    | nil => exact absurd hbk ha.zsks
+    | cons z r =>
+      obtain ⟨x, hx, _⟩ := hspec.complete z (List.mem_append_right _ (by simp [hbk]))
+      rw [hkeys]
+      exact List.ne_nil_of_mem hx
+  · intro x hx
+    rw [hkeys] at hx
+    rcases hclass x hx with ⟨name, hname, k, hk, r⟩ | ⟨z, hz, rfl, _⟩
+    · refine algorithmPolicyOfKey_ecdsa x ?_ ⟨_, by rw [r.pk]; exact Base64.decode_encode _⟩
+      rw [r.alg]
+      exact h1314 name hname k hk
+    · obtain ⟨rd, hrd, _⟩ := ha.zskRdata z hz
+      refine algorithmPolicyOfKey_ecdsa _ ?_ (keyToRdata_decodes hrd)
+      obtain ⟨name, hname, k, hk, hka⟩ := (hagree z.algorithm).mp (List.mem_map.mpr ⟨z, hz, rfl⟩)
+      have := h1314 name (by simp [SchemaAction.names, hname]) k hk
+      rw [hka] at this
+      exact this
+
+/-- **`create_skr` never completes with EC keys** (model of the code as it is: "Creating ECDSA
+    AlgorithmPolicy not implemented").  In a healthy EC world with at least one bundle — where
+    `sign_bundles` DOES complete with verified signatures (`C01_completes_ecdsa`) — `create_skr` ends in
+    RuntimeError, after all the `C_Sign` operations were issued. -/
+theorem C01_ecdsa_create_skr_not_implemented (ext : Externals) (st : Store) (ok : String → Nat → Bool)
+    (sg : String → Nat → Nat → Nat → Bytes → Bytes) (mods : List P11Module) (cfg : SignerConfig)
+    (eloc : String → EcLoc) (req : Request)
+    (hw : AnyHealthyWorld ext st sg mods cfg (fun l => .ec (eloc l)) req) (hne : req.bundles ≠ [])
+    (s : TokState) :
+    ∃ rbs s', signBundles ext mods cfg req (signingToken st ok sg) s = (.ok rbs, s') ∧
+      createSkr ext mods cfg req (signingToken st ok sg) s = (.error (.error .runtime), s') := by
+  obtain ⟨rbs, s', h, hlen, _⟩ := C01_completes_any ext st ok sg mods cfg _ req hw s
+  refine ⟨rbs, s', h, ?_⟩
+  have hfrom : signBundlesFrom ext mods cfg 1 req.bundles (signingToken st ok sg) s = (.ok rbs, s') := h
+  obtain ⟨_, hpos⟩ := signBundlesFrom_ok hfrom
+  -- every published key of every response bundle refuses `to_algorithm_policy`
+  have hall : ∀ (i : Nat) (rb : Bundle), rbs[i]? = some rb →
+      rb.keys ≠ [] ∧ ∀ x ∈ rb.keys, algorithmPolicyOfKey x = .error (.error .runtime) := by
+    intro i rb hi
+    have hlt : i < req.bundles.length := by
+      rw [← hlen]
+      exact (List.getElem?_eq_some_iff.mp hi).1
+    obtain ⟨rb', sa, sb, h1, h2⟩ := hpos i req.bundles[i] (List.getElem?_eq_getElem hlt)
+    rw [hi] at h1
+    cases h1
+    rw [Nat.add_comm] at h2
+    obtain ⟨act, hact, ha, hag⟩ := hw.slots i req.bundles[i] (List.getElem?_eq_getElem hlt)
+    exact ec_slot_keys_policy ext st ok sg mods cfg eloc (i + 1) _ act hact ha hag rb sa sb h2
+  have hmap : ((rbs.map (·.keys)).flatten).mapM algorithmPolicyOfKey = .error (.error .runtime) := by
+    apply mapM_all_error
+    · cases hr : rbs with
+      | nil =>
+        rw [hr] at hlen
+        exact absurd (List.length_eq_zero_iff.mp hlen.symm) hne
+      | cons rb0 rest =>
+        have h0 : rbs[0]? = some rb0 := by rw [hr]; rfl
+        obtain ⟨hk0, _⟩ := hall 0 rb0 h0
+        cases hk : rb0.keys with
+        | nil => exact absurd hk hk0
+        | cons x t => simp [hk]
+    · intro x hx
+      obtain ⟨l, hl, hxl⟩ := List.mem_flatten.mp hx
+      obtain ⟨rb, hrb, rfl⟩ := List.mem_map.mp hl
+      obtain ⟨i, hi⟩ := List.getElem?_of_mem hrb
+      exact (hall i rb hi).2 x hxl
+  have hpol : kskSignaturePolicy cfg.kskPolicy rbs = .error (.error .runtime) := by
+    unfold kskSignaturePolicy
+    rw [hmap]
+    rfl
+  unfold createSkr
+  rw [bind_run_ok _ _ _ _ _ _ h, bind_run, TokM.lift_run, hpol]
+
+/-- the hypotheses of `C01_create_skr_completes_rsa` are satisfiable: the RSA world of §6, whose ZSKs are
+    RSA keys with decodable texts -/
+example : ∃ resp s', createSkr HealthyExample.ext HealthyExample.mods HealthyExample.cfg HealthyExample.req
+      (signingToken HealthyExample.store (fun _ _ => true) HealthyExample.sg) {} = (.ok resp, s') ∧
+    resp.bundles.length = 2 := by
+  obtain ⟨resp, s', h, _, hl⟩ := C01_create_skr_completes_rsa HealthyExample.ext HealthyExample.store
+    (fun _ _ => true) HealthyExample.sg HealthyExample.mods HealthyExample.cfg HealthyExample.loc
+    HealthyExample.req healthyWorld_example (by
+      have key : ∀ z, z = HealthyExample.z1 ∨ z = HealthyExample.z2 → ∃ p, algorithmPolicyOfKey z = .ok p := by
+        rintro z (rfl | rfl)
+        · exact ⟨_, eq_okOr default (by decide +kernel)⟩
+        · exact ⟨_, eq_okOr default (by decide +kernel)⟩
+      intro b hb z hz
+      simp only [HealthyExample.req, List.mem_cons, List.not_mem_nil, or_false] at hb
+      rcases hb with rfl | rfl
+      · exact key z (by simpa [HealthyExample.b1] using hz)
+      · exact key z (by right; simpa [HealthyExample.b2] using hz)) {}
+  exact ⟨resp, s', h, hl⟩
+
+/-- **For every token: a response that publishes an ECDSA key is never returned by `create_skr`.**  Whenever
+    `sign_bundles` returned bundles one of which publishes a key of algorithm 13 / 14 (a KSK of either
+    world above, or a ZSK), `create_skr` ends in an error (`to_algorithm_policy` is not implemented for
+    ECDSA) — so the mixed worlds of `C01_completes_any` complete at `sign_bundles` only. -/
+theorem C01_create_skr_refuses_ecdsa (ext : Externals) (mods : List P11Module) (cfg : SignerConfig)
+    (req : Request) (tok : Token) (s s' : TokState) (rbs : List Bundle)
+    (h : signBundles ext mods cfg req tok s = (.ok rbs, s'))
+    (hx : ∃ rb ∈ rbs, ∃ x ∈ rb.keys, isAlgorithmEcdsa x.algorithm = true) :
+    ∃ e, createSkr ext mods cfg req tok s = (.error e, s') := by
+  obtain ⟨rb, hrb, x, hxk, hxa⟩ := hx
+  have hxe : ∃ e, algorithmPolicyOfKey x = .error e := by
+    have hnr : isAlgorithmRsa x.algorithm = false := by
+      simp only [isAlgorithmEcdsa, algECDSAP256, algECDSAP384, Bool.or_eq_true, beq_iff_eq] at hxa
+      rcases hxa with h | h <;> rw [h] <;> decide
+    unfold algorithmPolicyOfKey
+    simp only [hnr, hxa, Bool.false_eq_true, ↓reduceIte]
+    cases Base64.decode x.publicKey with
+    | none => exact ⟨_, rfl⟩
+    | some b => exact ⟨_, rfl⟩
+  have hpol : ∃ e, kskSignaturePolicy cfg.kskPolicy rbs = .error e := by
+    unfold kskSignaturePolicy
+    cases hm : ((rbs.map (·.keys)).flatten).mapM algorithmPolicyOfKey with
+    | error e => exact ⟨e, rfl⟩
+    | ok algs =>
+      obtain ⟨_, _, hall⟩ := mapM_ok_mem _ _ _ hm
+      obtain ⟨p, hp⟩ := hall x (List.mem_flatten.mpr ⟨rb.keys, List.mem_map.mpr ⟨rb, hrb, rfl⟩, hxk⟩)
+      obtain ⟨e, he⟩ := hxe
+      rw [he] at hp
+      cases hp
+  obtain ⟨e, he⟩ := hpol
+  refine ⟨e, ?_⟩
+  unfold createSkr
+  rw [bind_run_ok _ _ _ _ _ _ h, bind_run, TokM.lift_run, he]
+
+/-! ### Non-vacuity of §7
+
+The world of Lemmas/C01AnyExample.lean: one module, session slots 0 (a foreign RSA key) and 1 holding "EA"
+(P-256, point WRAPPED, private object WITHOUT a readable point, algorithm 13, hashing on the token), "EB"
+(P-384, BARE point on both objects, algorithm 14, hashing on the host, validity window configured) and the
+RSA pair "KA" (algorithm 8); schema slot 1 = publish e f / sign e f, slot 2 = publish a e / sign a e /
+revoke f. -/
+
+section EcWorldExample
+open EcExample
+
+/-- the hypotheses of `C01_completes_ecdsa` are satisfiable (EC keys only, one bundle with ZSKs of
+    algorithms 13 and 14) -/
+theorem ecWorld_example : AnyHealthyWorld ext store sg mods cfg (fun l => .ec (eloc l)) reqE where
+  base := base
+  slots := by
+    intro i b hb
+    match i, hb with
+    | 0, hb =>
+      simp only [reqE, List.getElem?_cons_zero, Option.some.injEq] at hb
+      subst hb
+      exact ⟨actE, by decide, healthyActionE describes_locE, agreeE⟩
+    | i + 1, hb => simp [reqE] at hb
+
+/-- … and its conclusion on that world -/
+example : ∃ rbs s', signBundles ext mods cfg reqE (signingToken store (fun _ _ => true) sg) {} = (.ok rbs, s') ∧
+    rbs.length = 1 := by
+  obtain ⟨rbs, s', h, hl, _⟩ :=
+    C01_completes_ecdsa ext store (fun _ _ => true) sg mods cfg eloc reqE ecWorld_example {}
+  exact ⟨rbs, s', h, hl⟩
+
+/-- … and on that world `create_skr` ends in the RuntimeError of `to_algorithm_policy` (theorem, and by
+    evaluation of the model) -/
+example : ∃ rbs s', signBundles ext mods cfg reqE (signingToken store (fun _ _ => true) sg) {} = (.ok rbs, s') ∧
+    createSkr ext mods cfg reqE (signingToken store (fun _ _ => true) sg) {} = (.error (.error .runtime), s') :=
+  C01_ecdsa_create_skr_not_implemented ext store (fun _ _ => true) sg mods cfg eloc reqE ecWorld_example
+    (by decide) {}
+
+example : (createSkr ext mods cfg reqE (signingToken store (fun _ _ => true) sg) {}).1.toOption.isSome = false ∧
+    ((createSkr ext mods cfg reqE (signingToken store (fun _ _ => true) sg) {}).2.log.filter
+      (fun p => match p.1 with | .sign .. => true | _ => false)).length = 2 := by
+  constructor <;> decide +kernel
+
+/-- the hypotheses of `C01_completes_any` are satisfiable with keys of both families: bundle 1 under the
+    EC-only action, bundle 2 (ZSKs of algorithms 8 and 13) under the action that signs with "KA" and "EA" -/
+theorem mixedWorld_example : AnyHealthyWorld ext store sg mods cfg loc reqM where
+  base := base
+  slots := by
+    intro i b hb
+    match i, hb with
+    | 0, hb =>
+      simp only [reqM, List.getElem?_cons_zero, Option.some.injEq] at hb
+      subst hb
+      exact ⟨actE, by decide, healthyActionE describes_loc, agreeE⟩
+    | 1, hb =>
+      simp only [reqM, List.getElem?_cons_succ, List.getElem?_cons_zero, Option.some.injEq] at hb
+      subst hb
+      exact ⟨actM, by decide, healthyActionM_bM, agreeM⟩
+    | i + 2, hb => simp [reqM] at hb
+
+example : ∃ rbs s', signBundles ext mods cfg reqM (signingToken store (fun _ _ => true) sg) {} = (.ok rbs, s') ∧
+    rbs.length = 2 := by
+  obtain ⟨rbs, s', h, hl, _⟩ :=
+    C01_completes_any ext store (fun _ _ => true) sg mods cfg loc reqM mixedWorld_example {}
+  exact ⟨rbs, s', h, hl⟩
+
+/-- `C01_create_skr_refuses_ecdsa` on the mixed world, by evaluation: `sign_bundles` returns both bundles,
+    `create_skr` the RuntimeError -/
+example : (createSkr ext mods cfg reqM (signingToken store (fun _ _ => true) sg) {}).1.toOption.isSome = false ∧
+    ((signBundles ext mods cfg reqM (signingToken store (fun _ _ => true) sg) {}).1.toOption.isSome = true) := by
+  constructor <;> decide +kernel
+
+/-- the hypotheses of `C01_refused_without_agreement` are satisfiable: the mixed action with a bundle that
+    has only the RSA ZSK is refused -/
+example : ∃ s', signBundle ext mods cfg 2 bR (signingToken store (fun _ _ => true) sg) {} =
+    (.error (.error .createSignature), s') :=
+  C01_refused_without_agreement ext store (fun _ _ => true) sg mods cfg loc 2 bR actM base (by decide)
+    healthyActionM_bR not_agreeR {}
+
+/-- cross-check by evaluation of the model: bundle 1 publishes "EA", "EB" and two ZSKs with signatures of
+    algorithms 13 and 14; bundle 2 publishes "KA", "EA", "EB" revoked and two ZSKs with signatures of
+    algorithms 8 and 13; the RSA-only bundle under the mixed action ends in `CreateSignatureError` -/
+example : (signBundles ext mods cfg reqM (signingToken store (fun _ _ => true) sg) {}).1.map
+    (·.map fun b => (b.keys.length, b.signatures.map (·.algorithm))) =
+      .ok [(4, [13, 14]), (5, [8, 13])] := by decide +kernel
+
+example : (signBundle ext mods cfg 2 bR (signingToken store (fun _ _ => true) sg) {}).1 =
+    .error (.error .createSignature) := by decide +kernel
+
+/-- F4 on that world, by evaluation: the DNSKEY text `load_pkcs11_key` builds for "EA" (private lookup: the
+    point comes from the second, public lookup and is unwrapped) decodes to 65 octets starting `04`; for
+    "EB" (bare point) to 97 octets starting `04` -/
+example : (loadPkcs11Key mods kE {} bE false (storeToken store (fun _ _ => true)) {}).1.map
+      (·.map fun ck => (Base64.decode ck.dns.publicKey).map fun d => (d.length, d.take 1)) =
+        .ok (some (some (65, [4]))) ∧
+    (loadPkcs11Key mods kF {} bE true (storeToken store (fun _ _ => true)) {}).1.map
+      (·.map fun ck => (Base64.decode ck.dns.publicKey).map fun d => (d.length, d.take 1)) =
+        .ok (some (some (97, [4]))) := by
+  constructor <;> decide +kernel
+
+end EcWorldExample
 
 end Kskm.C01
